@@ -17,6 +17,7 @@ type Datagram struct {
 	From  net.Addr
 	Nonce int    // unique id of the injected datagram
 	Class string // harness classification (matching, wrong-xid, ...)
+	Err   error  // if set: not a datagram but a read fault; the ReadFrom that takes it fails with this error
 }
 
 type Event struct {
@@ -126,6 +127,10 @@ func (c *Conn) ReadFrom(b []byte) (int, net.Addr, error) {
 	}
 	select {
 	case d := <-c.rx:
+		if d.Err != nil {
+			c.log(Event{Kind: "rx.error", K: k})
+			return 0, nil, d.Err
+		}
 		n := copy(b, d.B) // writes only into the buffer of THIS call, like a real socket
 		if c.OnTake != nil {
 			c.OnTake(k)
